@@ -406,6 +406,29 @@ fn main() -> Result<(), Error> {{
 }}
 """
 
+PASS['handles_in_scope_at_commit'] = f"""//@ kind: pass
+//@ what: handles that are not used again may still be in scope when the transaction is committed or dropped (no handle type has drop glue that touches the transaction)
+{PRELUDE}
+fn main() -> Result<(), Error> {{
+    let db = DB::open("never-run.db")?;
+    let tx = db.tx(true)?;
+    let b = tx.get_or_create_bucket("b")?;
+    let mut c = b.cursor();
+    c.seek("k");
+    let lo: &[u8] = b"a";
+    let r = b.range(lo..);
+    let kv = b.get_kv("k");
+    b.delete("k")?;
+    tx.commit()?;
+    let tx2 = db.tx(false)?;
+    let b2 = tx2.get_bucket("b")?;
+    let c2 = b2.cursor();
+    let d2 = b2.get("k");
+    drop(tx2);
+    Ok(())
+}}
+"""
+
 
 def main():
     os.makedirs(OUT, exist_ok=True)
